@@ -54,6 +54,12 @@ def make_case(rng, ident):
             else:
                 pool = [a for a in (inside if r < 0.85 else outside) if a not in conf and a > 0]
                 conf.append(rng.choice(pool) if pool else 0)
+        # terminals taken over from elsewhere may carry the SAME address (a probe of it then comes
+        # back with working counter 2, 3, ..): make some terminals share an earlier one's address
+        for i in range(1, n):
+            earlier = [a for a in conf[:i] if a]
+            if earlier and rng.random() < 0.25:
+                conf[i] = rng.choice(earlier)
         scenario = rng.choice(SCENARIOS)
         inits = sorted(rng.sample(range(n), rng.randint(1, n))) if "init" in scenario else []
         rng.shuffle(inits)
@@ -161,7 +167,7 @@ def validate(ctx, wd, traces, incl):
 CONSTANTS HiIncl = {"TRUE" if incl else "FALSE"}
           Addrs = {{}}
 CONSTRAINT Progress
-INVARIANTS Unique
+INVARIANTS UniqueAssigned
            WrittenInRange
 POSTCONDITION Post
 CHECK_DEADLOCK FALSE
@@ -177,10 +183,12 @@ def judge(ctx, cases, runs, strict, lenient):
         ctx.evaluated(("g" if isinstance(case["id"], int) else "r", case["id"]),
                       nontrivial=len(writes) >= 2)
         st = ctx.extra.setdefault("stats", dict(writes=0, probes=0, probes_answered=0,
-                                                assigned_hi=0, exceptions=0, stalled=0))
+                                                assigned_hi=0, exceptions=0, stalled=0,
+                                                probes_answered_by_several=0))
         st["writes"] += len(writes)
         st["probes"] += sum(1 for e in ev if e["op"] == "probe")
         st["probes_answered"] += len(answered)
+        st["probes_answered_by_several"] += sum(1 for e in answered if e["wkc"] > 1)
         st["assigned_hi"] += sum(1 for e in writes if e["a"] == case["hi"])
         st["exceptions"] += len(info["exceptions"])
         st["stalled"] += bool(info["stalled"])
@@ -229,7 +237,7 @@ CONSTANTS HiIncl = FALSE
           MaxTasks = {6 if big else 4}
 INVARIANTS TypeOK
            DesignSafe
-           Unique
+           UniqueAssigned
            WrittenInRange
            UsedCovers
 CHECK_DEADLOCK FALSE
@@ -255,7 +263,7 @@ CHECK_DEADLOCK FALSE
     if not ctx.extra["stats"]["writes"]:
         raise T.MachineryError("no address was ever assigned: the harness does not exercise the code")
     ctx.exhaustive = False
-    ctx.rule = (f"{ngrid} fixed + {nrand} seeded cases: 2..6 terminals, random pre-assigned addresses in "
+    ctx.rule = (f"{ngrid} fixed + {nrand} seeded cases: 2..6 terminals, random pre-assigned addresses (some shared by several terminals) in "
                 f"and around a range of 4..8 addresses, scan_serial_numbers and/or concurrent "
                 f"Terminal.initialize in varied start order, start jitter and response delays; "
                 f"non-trivial = at least two addresses were assigned in the case")
